@@ -1142,4 +1142,92 @@ Section HyperRefine.
       exact Hall.
     Qed.
   End WalkC.
+
+  (* ---------------------------------------------------------------- one call on the tables *)
+  Notation sC0f := (sC0).
+  Definition RepState (st : hstate D V) (M : list (key * V)) : Prop :=
+    RepC (sC0 st) (sA0 st) nbits [] (sC0 st ([], nbits)) M /\
+    (forall q, complete 5 (sA0 st q)) /\ (forall q, complete 5 (sC0 st q)).
+
+  Lemma tget_tset t : forall p b q, tget D V (tset D V t p b) q = if hpos_eqb q p then b else tget D V t q.
+  Proof.
+    induction t as [|[p0 c] t IH]; intros p b q; unfold tget in *.
+    - cbn. destruct (hpos_eqb q p); reflexivity.
+    - cbn [tset]. destruct (hpos_eqb p p0) eqn:Hp.
+      + apply hpos_eqb_eq in Hp. subst p0. cbn [assoc]. destruct (hpos_eqb q p); reflexivity.
+      + cbn [assoc]. destruct (hpos_eqb q p0) eqn:Hq.
+        * destruct (hpos_eqb q p) eqn:Hqp; [|reflexivity]. apply hpos_eqb_eq in Hq. apply hpos_eqb_eq in Hqp.
+          assert (Hpp : hpos_eqb p p0 = true) by (apply hpos_eqb_eq; congruence). congruence.
+        * exact (IH p b q).
+  Qed.
+
+  Lemma store_after w : forall st q, sA0 (fold_left (apply_wr D V) w st) q = ap (sA0 st) w q.
+  Proof.
+    induction w as [|x w IH]; intros st q; [reflexivity|]. cbn [fold_left]. rewrite IH.
+    change (ap (sA0 st) (x :: w) q) with (ap (ap1 (sA0 st) x) w q). apply ap_congr.
+    destruct x as [p b|p b|p b]; cbn [apply_wr ap1]; unfold sA0; cbn [hs_store]; try reflexivity.
+    unfold upd_fun. apply tget_tset.
+  Qed.
+
+  Lemma cache_after w : forall st q, sC0 (fold_left (apply_wr D V) w st) q = apC (sC0 st) w q.
+  Proof.
+    induction w as [|x w IH]; intros st q; [reflexivity|]. cbn [fold_left]. rewrite IH.
+    change (apC (sC0 st) (x :: w) q) with (apC (apC1 (sC0 st) x) w q). apply apC_congr.
+    destruct x as [p b|p b|p b]; cbn [apply_wr apC1]; unfold sC0; cbn [hs_cache]; try reflexivity.
+    unfold upd_fun. apply tget_tset.
+  Qed.
+
+  Lemma ap_complete pre w : wr_okC pre w -> forall s, (forall q, complete 5 (s q)) -> forall q, complete 5 (ap s w q).
+  Proof.
+    induction w as [|x w IH]; intros Hw s Hs q; [exact (Hs q)|]. inversion Hw as [|? ? [_ Hx] Hw']; subst.
+    change (ap s (x :: w) q) with (ap (ap1 s x) w q). apply (IH Hw').
+    intros q'. destruct x as [p b|p b|p b]; cbn [ap1]; try exact (Hs q'). unfold upd_fun. destruct (hpos_eqb q' p); [exact Hx|exact (Hs q')].
+  Qed.
+  Lemma apC_complete pre w : wr_okC pre w -> forall s, (forall q, complete 5 (s q)) -> forall q, complete 5 (apC s w q).
+  Proof.
+    induction w as [|x w IH]; intros Hw s Hs q; [exact (Hs q)|]. inversion Hw as [|? ? [_ Hx] Hw']; subst.
+    change (apC s (x :: w) q) with (apC (apC1 s x) w q). apply (IH Hw').
+    intros q'. destruct x as [p b|p b|p b]; cbn [apC1]; try exact (Hs q'). unfold upd_fun. destruct (hpos_eqb q' p); [exact Hx|exact (Hs q')].
+  Qed.
+
+  Hypothesis limit_pos : 0 < limit.
+  Hypothesis limit_lt : limit < nbits.
+
+  (* HyperTree.Add / AddBulk on tables that represent the sparse tree of the map M: the root of the tree of the
+     updated map is returned, and the tables represent that tree afterwards *)
+  Theorem insert_refines st M L :
+    RepState st M ->
+    L <> [] -> keys_ok [] L -> NoDup (map fst L) -> keys_ok [] M -> NoDup (map fst M) ->
+    exists d w, walk_insert D E V H limit nbits ds st L = Some (d, w) /\
+      d = sh nbits [] (mrg M L) /\
+      RepState (fold_left (apply_wr D V) w st) (mrg M L).
+  Proof.
+    intros (HR & Hwa & Hwc) Hne HkL HnL HkM HnM.
+    unfold walk_insert. destruct L as [|x L']; [contradiction|].
+    assert (Hb : Nat.ltb limit nbits = true) by (apply Nat.ltb_lt; exact limit_lt). rewrite Hb.
+    rewrite (load_cache st [] nbits limit_lt).
+    destruct (walk_through_cache st limit_pos Hwa Hwc nbits limit_lt [] (x :: L') (sC0 st ([], nbits)) true M
+                ltac:(cbn; lia) limit_lt (fun _ => nbits4) ltac:(discriminate) (Hwc _) HR ltac:(discriminate) HkL HnL HkM HnM)
+      as (d & t' & w & E1 & E2 & E3 & E4 & E5 & E6).
+    rewrite E1. exists d, w. split; [reflexivity|]. split; [exact E2|].
+    split; [|split].
+    - rewrite (cache_after w st ([], nbits)), (E6 eq_refl).
+      apply (RepC_ext nbits (apC (sC0 st) w) _ (ap (sA0 st) w) _ [] t' _); [| |exact E5].
+      + intros q _. symmetry. apply cache_after.
+      + intros q _. symmetry. apply store_after.
+    - intros q. rewrite store_after. exact (ap_complete [] w E4 _ Hwa q).
+    - intros q. rewrite cache_after. exact (apC_complete [] w E4 _ Hwc q).
+  Qed.
+
+  (* the empty tables represent the empty map *)
+  Lemma all_none_complete_empty : all_none (empty_batch D V).
+  Proof. apply all_none_bempty. Qed.
+
+  Theorem init_represents : RepState (hinit D V) [].
+  Proof.
+    unfold RepState, sC0, sA0, tget. cbn [hinit hs_cache hs_store assoc]. split; [|split].
+    - apply RepC_nil. split; [apply all_none_bempty|]. intros q _. split; apply all_none_bempty.
+    - intros q. apply complete_bempty.
+    - intros q. apply complete_bempty.
+  Qed.
 End HyperRefine.
